@@ -17,17 +17,17 @@ import (
 
 // RHPCase: rhp.Server.Close while RPC handlers are in flight.
 type RHPCase struct {
-	Phase     string `json:"phase"`
-	Index     int    `json:"index"`
-	Clients   int    `json:"clients"`   // siamux transports
-	PerClient int    `json:"perClient"` // concurrent RPCs per transport
-	KindOff   int    `json:"kindOff"`
-	GateShut  bool   `json:"gateShut"`   // handlers parked in Settings/Contractor/Sectors when Close is called
-	GateHoldUs int   `json:"gateHoldUs"` // released this long after Close was called
-	Rounds    int    `json:"rounds"`     // gate open: each worker issues this many RPCs in a row
-	HoldUs    int    `json:"holdUs"`
-	Double    bool   `json:"doubleClose"`
-	KeySeed   uint64 `json:"keySeed"`
+	Phase      string `json:"phase"`
+	Index      int    `json:"index"`
+	Clients    int    `json:"clients"`   // siamux transports
+	PerClient  int    `json:"perClient"` // concurrent RPCs per transport
+	KindOff    int    `json:"kindOff"`
+	GateShut   bool   `json:"gateShut"`   // handlers parked in Settings/Contractor/Sectors when Close is called
+	GateHoldUs int    `json:"gateHoldUs"` // released this long after Close was called
+	Rounds     int    `json:"rounds"`     // gate open: each worker issues this many RPCs in a row
+	HoldUs     int    `json:"holdUs"`
+	Double     bool   `json:"doubleClose"`
+	KeySeed    uint64 `json:"keySeed"`
 }
 
 func genRHPCase(rng *rand.Rand, idx int) RHPCase {
